@@ -106,6 +106,29 @@ def make_real_scripted():
     return RealScripted
 
 
+def make_sub_scripted():
+    """a user subclass of MersenneTwister that overrides next_float (the
+    documented way to plug in antithetic / scripted / counting numbers)"""
+    from pydsol.core.streams import MersenneTwister
+
+    class SubScripted(MersenneTwister):
+        def __init__(self, script=(), tail=(0.3, 0.6, 0.45, 0.8, 0.15)):
+            super().__init__(1)
+            self.script = list(script)
+            self.tail = tail
+            self.i = 0
+
+        def next_float(self):
+            i = self.i
+            self.i += 1
+            if i < len(self.script):
+                return self.script[i]
+            if i > len(self.script) + 2000000:
+                raise RuntimeError("the draw does not return")
+            return self.tail[(i - len(self.script)) % len(self.tail)]
+    return SubScripted
+
+
 def weyl(k, a=0.6180339887498949, b=0.137):
     """deterministic equidistributed sequence in (0,1) for multi-draw runs"""
     return [((i + 1) * a + b) % 1.0 for i in range(k)]
@@ -242,6 +265,7 @@ def script_worker(task):
 def _script_case(name, mk, support, Scripted0, Real, alpha, maxlen, viols):
     n = 0
     nontriv = 0
+    SubS = make_sub_scripted()
     if True:
         Scripted = Scripted0
         if name.endswith("@MT"):
@@ -323,6 +347,26 @@ def _script_case(name, mk, support, Scripted0, Real, alpha, maxlen, viols):
                                                  list(script[:used])),
                                   {"case": name,
                                    "script": list(script[:used])}, used))
+                # the same numbers delivered by a user subclass of the
+                # standard stream that overrides next_float
+                if not name.startswith("DiscreteUniform") and \
+                        not name.endswith("@MT") and len(script) <= 3:
+                    st3 = SubS(script)
+                    try:
+                        x3 = mk(st3).draw()
+                        if not (x3 == x or (x != x and x3 != x3)) or \
+                                st3.i != used:
+                            viols.append((
+                                "C14:numbers-of-a-stream-subclass-ignored:%s"
+                                % name.split("(")[0],
+                                "%s: on a MersenneTwister subclass that "
+                                "delivers %s through next_float the draw is "
+                                "%r (%d numbers taken) instead of %r (%d)" % (
+                                    name, list(script[:used]), x3, st3.i, x,
+                                    used),
+                                {"case": name, "script": list(script)}, used))
+                    except Exception:  # noqa
+                        pass
                 # twin on an identically scripted stream
                 st2 = Scripted(script)
                 try:
@@ -512,6 +556,73 @@ def _interplay_case(name, mk, support, partners, Scripted, K, viols):
                         "alternating draws: original %s (alone: %s), clone "
                         "%s (fresh on an equal stream: %s)" % (
                             name, how, before, gd, exp_d, gc, exp_c),
+                        {"case": name, "before": before}))
+        # (e) operations that are refused or fail half-way leave no trace:
+        #     a refused stream assignment; a stream that raises in the
+        #     middle of a draw (the next draw behaves like that of a fresh
+        #     instance on the same stream position)
+        for before in (0, 1, 2, 3):
+            for badstream in (None, "s", 5, object):
+                n += 1
+                s1 = Scripted(weyl(300))
+                d = mk(s1)
+                seq_of(d, before)
+                try:
+                    d.stream = badstream
+                    viols.append(("C14:non-stream-assigned:%s"
+                                  % name.split("(")[0], "%s: .stream = %r "
+                                  "accepted" % (name, badstream),
+                                  {"case": name}))
+                    continue
+                except Exception:  # noqa
+                    pass
+                got = seq_of(d, K)
+                tw = mk(Scripted(weyl(300)))
+                seq_of(tw, before)
+                exp = seq_of(tw, K)
+                if got != exp or d.stream is not s1:
+                    viols.append((
+                        "C14:refused-stream-assignment-left-a-trace:%s"
+                        % name.split("(")[0],
+                        "%s: after %d draws a refused .stream = %r: next "
+                        "draws %s, twin without the attempt %s" % (
+                            name, before, badstream, got, exp),
+                        {"case": name, "before": before}))
+            for fail_at in (0, 1, 2):
+                n += 1
+
+                class Failing(Scripted):
+                    armed = True
+
+                    def next_float(self_):
+                        if self_.armed and self_.i == before_i + fail_at:
+                            self_.armed = False
+                            raise RuntimeError("stream failure")
+                        return super().next_float()
+                s1 = Failing(weyl(300))
+                d = mk(s1)
+                seq_of(d, before)
+                before_i = s1.i
+                try:
+                    d.draw()
+                    continue          # the draw did not reach the failure
+                except RuntimeError:
+                    pass
+                except Exception:  # noqa
+                    continue
+                pos = s1.i
+                got = seq_of(d, 2)
+                s2 = Scripted(weyl(300))
+                s2.i = pos
+                exp = seq_of(mk(s2), 2)
+                if got != exp:
+                    viols.append((
+                        "C14:failed-draw-left-a-trace:%s"
+                        % name.split("(")[0],
+                        "%s: after %d draws the stream fails at its %d-th "
+                        "next number; the following draws are %s, a fresh "
+                        "instance at the same stream position draws %s" % (
+                            name, before, fail_at + 1, got, exp),
                         {"case": name, "before": before}))
         # (d) a real stream that is re-seeded (with the seed it already has,
         #     with another one, by reset) makes the distribution repeat
